@@ -35,8 +35,22 @@ def _outcome_once(fn):
     except FileNotFoundError:
         return "FileNotFoundError"
     except Exception as e:  # noqa: BLE001
+        if isinstance(e, (TypeError, AttributeError, NameError)) and _raised_in_harness(e):
+            raise          # an outdated stand-in / call signature of the harness, not behaviour of the code under test
         return type(e).__name__
     return "ok"
+
+
+def _raised_in_harness(e):
+    """the innermost frame of the traceback is harness code (generated harness or vf/), not rtflite"""
+    tb = e.__traceback__
+    last = None
+    while tb is not None:
+        last = tb.tb_frame.f_code.co_filename
+        tb = tb.tb_next
+    if last is None:
+        return False
+    return "/vf/" in last or "/h_" in last or "vf-" in last or "<string>" in last
 
 
 def outcome(fn):
